@@ -186,7 +186,8 @@ Record gdesc : Type := mkG {
   g_is_gate : bool;          (* isinstance(gate, Gate) *)
   g_nq : nat;                (* gate.num_qubits *)
   g_param_ok : bool;         (* float(gate.params[0]) succeeds (no unbound parameter) *)
-  g_matrix_ok : bool }.      (* gate.to_matrix() succeeds *)
+  g_matrix_ok : bool;        (* gate.to_matrix() succeeds *)
+  g_has_param : bool }.      (* gate.params is non-empty (gate.params[0] exists) *)
 
 Definition registered : list string :=
   ["swap"; "iswap"; "dcx"; "rxx"; "ryy"; "rzz"; "crx"; "cry"; "crz"; "cs"; "csdg"; "cp"; "csx"; "csxdg";
@@ -203,7 +204,8 @@ Definition kak_dress (b : pbasis) : pbasis :=
 Definition kak_basis : pbasis := kak_dress (nonlocal_basis u_from_thetavec).
 
 Definition theta_guard (g : gdesc) (b : pbasis) : res pbasis :=
-  if g_param_ok g then Ok b else Refused.      (* _theta_from_instruction: TypeError -> ValueError *)
+  if negb (g_has_param g) then Crashed          (* gate.params[0]: IndexError, not caught *)
+  else if g_param_ok g then Ok b else Refused.  (* _theta_from_instruction: TypeError -> ValueError *)
 
 Definition basis_of (g : gdesc) : res pbasis :=
   let n := g_name g in
@@ -232,4 +234,4 @@ Definition basis_of (g : gdesc) : res pbasis :=
   else Refused.
 
 Definition basis_terms (name : string) : list term :=
-  match basis_of (mkG name true 2 true true) with Ok b => resolve b | _ => [] end.
+  match basis_of (mkG name true 2 true true true) with Ok b => resolve b | _ => [] end.
